@@ -93,7 +93,7 @@ CHECKS.update({
 CHECKS.update({
     "C04": dict(
         technique="TLA+ spec of pairing-reply handling (transport type filter, step-number check, error mapping; spec/pairing/HapErrors.tla) model-checked by TLC over every (step, transport, reply) cell; every cell replayed on the real generators, the IP/CoAP/BLE drivers and add/remove pairing; observations validated by HapErrors_Trace",
-        text="TLC checks ErrorNeverSuccess / WrongStateNeverSuccess / OutcomeAllowed / SuccessOnlyClean exhaustively over 20,160 cells (9 steps x transports x 9 State values x 12 Error values x every subset of the step's fields x RetryDelay absent, last or before the Error). Each cell runs on the real code and the observed exception class or return must lie in the specification's Allowed set. The space is enumerated completely in both tiers.",
+        text="TLC checks ErrorNeverSuccess / WrongStateNeverSuccess / OutcomeAllowed / SuccessOnlyClean exhaustively over 30,120 cells in the thorough tier (10 steps x transports x State values {0..6, 255, absent, zero-length item, right number with a trailing byte} x 12 Error values x every subset of the step's fields x RetryDelay absent, last or before the Error) and 18,720 in the quick tier (the wrong step numbers 1, 3, 5 are left to thorough). Each cell runs on the real code and the observed exception class or return must lie in the specification's Allowed set. The space is enumerated completely in the thorough tier.",
         note="Trusted: TLC, harness/refacc, SimNet and the virtual-time loop, the fake CoAP context and GATT client. Items of types HAP does not define for the reply, placed before the Error item, are outside the claim. BLE add/remove pairing is exercised with _async_request scripted.",
         ref="5/C04"),
     "C01": dict(
